@@ -9,7 +9,8 @@ COQ_CHECK = "lcheck"
 COQ_PREAMBLE = ("Inductive lcase := CMgm (c : M_Mgm.case) (r : M_Mgm.rcase) | CMgm2 (c : M_Mgm2.case2).\n"
                 "Definition lcheck (c : lcase) : bool := match c with CMgm x r => M_Mgm.check_case x && "
                 "M_Mgm.rcheck_case r | CMgm2 x => M_Mgm2.check_case2 x end.")
-OBLIGATIONS = ['mgm_movers_independent_partial', 'mgm_round_monotone_partial', 'mgm_rounds_monotone_partial', 'mgm2_monotone_refuted']
+OBLIGATIONS = ['mgm_movers_independent_partial', 'mgm_round_monotone_partial', 'mgm_rounds_monotone_partial', 'mgm2_monotone_refuted',
+               'mgm_refines_rounds', 'mgm_async_monotone', 'mgm_async_movers_independent']
 N_QUICK, N_THOROUGH = 300, 6000
 PARALLEL = 8
 SHARD = 40
@@ -22,10 +23,12 @@ RULE = ("random DCOPs of 1-6 variables (domains of 1-3 integer values), binary/t
 MODELLED = ("handler models of mgm.py / mgm2.py compared on full event traces, final states and channels; for MGM "
             "in addition the round-level function mgm_next (about which the theorems are) is iterated from the "
             "observed initial assignment with the observed draws and compared with the assignment at every cycle "
-            "boundary of the asynchronous run. Theorems: round-level (all inputs); the asynchronous refinement is "
-            "checked, not proved; MGM2: refutation witnesses only")
+            "boundary of the asynchronous run. Theorems: round-level (all inputs) AND, since the deepening "
+            "(P_Mgm3*.v), the refinement of the asynchronous handlers to mgm_next under every schedule "
+            "(mgm_refines_rounds) hence mgm_async_monotone / mgm_async_movers_independent about real executions at "
+            "cycle boundaries; MGM2: refutation witnesses only")
 META = dict(
-    level_text=("Partial proof (Coq). Proved for every DCOP (n-ary constraints, variables' own costs), min and max, all draws: one complete MGM cycle as a function on assignments never worsens the global cost (constraints + own costs) and no two constraint-sharing variables both move; lifted to any number of cycles. NOT proved: that the asynchronous handlers compute exactly this cycle function at every cycle boundary under every FIFO schedule; this refinement is checked on every run (round-level model replayed against the cycle-boundary assignments of real asynchronous executions, plus the full-trace correspondence of the handler model). MGM2: the handler model is tied to the code by the same full-trace correspondence; the property is refuted for coordinated moves (theorem mgm2_monotone_refuted, known finding C03-mgm2-coordinated-gain), no MGM2 monotonicity theorem."),
+    level_text=("Partial proof (Coq). Proved for every DCOP (n-ary constraints, variables' own costs), min and max, all draws: one complete MGM cycle as a function on assignments never worsens the global cost (constraints + own costs) and no two constraint-sharing variables both move; lifted to any number of cycles. ALSO proved (deepening, P_Mgm3*.v): the asynchronous handler model computes exactly this cycle function at every cycle boundary under EVERY schedule of starts and FIFO deliveries (mgm_refines_rounds: a computation with cycle counter c holds the value of the synchronous reference run after c-1 rounds), hence between any reachable configuration where all computations have completed j cycles and any where they have completed j+1 the global cost does not get worse and no two constraint-sharing variables both changed (mgm_async_monotone, mgm_async_movers_independent) - the full MGM statement. The refinement is additionally checked on every run (round-level model replayed against the cycle-boundary assignments of real asynchronous executions, plus the full-trace correspondence of the handler model). MGM2: the handler model is tied to the code by the same full-trace correspondence; the property is refuted for coordinated moves (theorem mgm2_monotone_refuted, known finding C03-mgm2-coordinated-gain), no MGM2 monotonicity theorem."),
     level_note=("Trusted: Coq kernel/vm_compute, M_Mgm.v / M_Mgm2.v + Net.v as renderings of the Python code, the "
                 "thread-free netdriver, integer costs inside int32."),
     technique="Coq proof over an executable round-level model + round-level and full-trace correspondence",
